@@ -28,8 +28,78 @@ ALLOWED_ON_ADVERT_CHAIN = ("record_addresses_ref", "::values", "::cloned", "::co
 FILTERS = ("::filter", "::filter_map", "::take", "::skip", "::retain", "::truncate", "::take_while", "::skip_while", "::step_by", "::drain", "::split_off", "::dedup", "::pop", "::remove")
 
 
+def second_round_rules(R):
+    """Rules added after the second probe set: the essential step of each stage of replication follows on every path, with the
+    legitimate reasons for doing nothing enumerated."""
+    F = R.F
+    RFX = "ant_networking::replication_fetcher::ReplicationFetcher::"
+    # (1) a replication list from a close peer always reaches the fetcher: ignored only if the sender is no peer, not among the closest
+    #     K peers, or this node itself
+    ak = R.body("C09.accept.listed", "ant_networking::event::request_response::<impl ant_networking::driver::SwarmDriver>::add_keys_to_replication_fetcher")
+    if ak is not None:
+        prep(ak)
+        closest = Taint(ak, through="all").closure(call_results(["*::get_closest_k_value_local_peers"])(ak))
+        selfid = Taint(ak).closure({d for d, r, p in field_reads(ak, "self_peer_id")})
+        holder = Taint(ak, through="all").closure(call_results(["ant_protocol::NetworkAddress::as_peer_id"])(ak))
+        R.reaches_except("C09.accept.listed", ak, CallSink(RFX + "add_keys"),
+                         [CallGuard(["ant_protocol::NetworkAddress::as_peer_id"], ("Some",), "the sender is not a peer"),
+                          CallGuard(["alloc::vec::Vec::contains", "core::slice::<impl [T]>::contains", "*::contains"], ("true",), "the sender is not among the closest K peers",
+                                    arg_pred=lambda b, blk, t, c=closest: op_local(t["args"][0]) in c),
+                          CmpGuard(lambda b: holder, lambda b: selfid, "Ne", "the sender is this node itself", close=False)],
+                         "a replication list from one of the closest peers is always handed to ReplicationFetcher::add_keys", key="list-ignored")
+    # (2) what was fetched for replication is handed to store_replicated_in_record: the only way out is a failed network re-attempt
+    fk = [c for c in F.item("ant_node::replication::<impl ant_node::node::Node>::fetch_replication_keys_without_wait") if c.kind == "closure" and c.coroutine]
+    if not fk:
+        R.viol("C09.fetch.stored", "anchor-missing:fetch-task", "the fetch task of fetch_replication_keys_without_wait was not found")
+    for c in fk[:1]:
+        R.reaches_except("C09.fetch.stored", c, CallSink(PV + "store_replicated_in_record"),
+                         [CallGuard(["ant_networking::Network::get_record_from_network"], ("Ok",), "the record could not be fetched from the network either")],
+                         "every record fetched for replication is handed to store_replicated_in_record", key="fetched-copy-dropped")
+    # (3) the per-peer throttle is a fixed window: the predicate choosing this round's targets does not itself restart a peer's window
+    tir = R.body("C09.throttle.window", TIR)
+    if tir is not None:
+        prep(tir)
+        from rules import closures_passed
+        bad = []
+        for blk in tir.blocks:
+            t = blk["term"]
+            if t["k"] == "call" and not blk["cleanup"] and (t.get("ngen") or t.get("ncallee") or "").endswith(("Vec::retain", "Iterator::filter", "Iterator::partition")):
+                for cl in closures_passed(F, tir, t):
+                    prep(cl)
+                    for x in cl.blocks:
+                        xt = x["term"]
+                        if xt["k"] == "call" and not x["cleanup"] and (xt.get("ncallee") or "").endswith(("Map::insert", "Map::remove", "Map::entry", "::get_mut", "::retain", "::clear")):
+                            bad.append((cl, xt))
+        for cl, xt in bad[:1]:
+            R.viol("C09.throttle.window", "predicate-mutates:%s" % xt["ncallee"].split("::")[-1], "the predicate selecting this round's replication targets changes the per-peer replication window (%s): a peer seen again before its window ends never gets the list" % xt["ncallee"], cl, xt["l"])
+        R.inst("C09.throttle.window", "K2 mutator whitelist", "the target-selection predicate of try_interval_replication does not touch replication_targets", 1, not bad)
+    # (4) a scratchpad is refused as outdated only because of its counter
+    pad = R.body("C09.pad.outdated", PV + "validate_and_store_scratchpad_record::{closure#0}")
+    if pad is not None:
+        prep(pad)
+        g = cfg_of(pad)
+        PADT = "ant_protocol::storage::scratchpad::Scratchpad"
+
+        def counts_of(body, src_locals):
+            src = Taint(body, through="all").closure(src_locals)
+            return Taint(body).closure({b["term"]["d"][0] for b in body.blocks if b["term"]["k"] == "call" and callee_matches(b["term"], [PADT + "::count"]) and op_local(b["term"]["args"][0]) in src})
+        lc = counts_of(pad, call_results(["ant_protocol::storage::header::try_deserialize_record"])(pad))
+        nc = counts_of(pad, PL(pad, 1))
+        newer = CmpGuard(lambda b: lc, lambda b: nc, "Lt", "local.count() < new.count()", close=False)
+        n, acc, rej = newer.edges(pad)
+        out = set(AggSink("*Error", "IgnoringOutdatedScratchpadPut").blocks(pad))
+        ok = bool(acc) and bool(out) and not any(g.reach((d,), cut=rej) & out for _, d in acc)
+        if not ok:
+            R.viol("C09.pad.outdated", "newer-pad-refused", "a scratchpad with a strictly higher counter can still be refused as outdated: replicas holding different counters do not converge to the highest", pad, pad.lines[0])
+        R.inst("C09.pad.outdated", "K4r reject-edge", "IgnoringOutdatedScratchpadPut only when local.count() >= new.count()", len(out), ok)
+    # (5) the responsible range set on the fetcher is exactly the range given (rule of C08, evaluated here: keys in range must be accepted)
+    from props.C08 import liveness_rules
+    liveness_rules(R, "C09.fetcher")
+
+
 def run(R):
     F = R.F
+    second_round_rules(R)
     # convergence of mutable kinds goes through the same validate/compare/merge functions the replication path calls (rules shared with C07)
     from props.C07 import merge_rules
     merge_rules(R, "C09.converge")
